@@ -133,7 +133,7 @@ MAPPER_CONFIGS = [
     ("mapped:0x3fffd000:lifo:A",    "2,2;3,2;4,0", "3,3;4,1;5,0"),
     ("mapped:0x40000000:aligned:B", "2,2;3,1",     "3,2;4,1;5,0"),
     ("rec1:0x0:asc:A",              "2,2;3,1;4,0", "3,3;4,1;5,0"),
-    ("rec126:0x3fffc000:asc:A",     "2,2;3,2",     "3,3;4,1;5,0"),
+    ("rec126:0x3fffc000:asc:A",     "2,2;3,1;4,0", "3,3;4,1;5,0"),
     ("rec126:0x3fffd000:lifo:A",    "2,2;3,1;4,0", "3,2;4,1;5,0"),
     ("rec248:0x40000000:aligned:A", "2,2;3,1;4,0", "3,3;4,1;5,0"),
     ("rec200:0x0:lifo:B",           "2,2;3,0",     "3,2;4,0"),
